@@ -63,12 +63,13 @@ Prefixed(k, t) == {s \in S : \A j \in 1..k : s[j] = t[j]}
 SumLen(chunks) == LET f[i \in 0..Len(chunks)] == IF i = 0 THEN 0 ELSE f[i - 1] + Len(chunks[i]) IN f[Len(chunks)]
 
 ExpContains(t) == t \in S
+ExpFind(t) == IF t \in S THEN t ELSE <<>>
 ExpSize == Cardinality(S)
 ExpLower(t) == LET T == {s \in S : ~LexLt(s, t)} IN IF T = {} THEN <<>> ELSE MinOf(T)
 ExpUpper(t) == LET T == {s \in S : LexLt(t, s)} IN IF T = {} THEN <<>> ELSE MinOf(T)
 
 Contains(t, r) == r = ExpContains(t)
-Find(t, r) == r = ExpContains(t)                       \* find(t) yields an iterator at t, or end
+Find(t, r) == r = ExpFind(t)                           \* find(t) yields an iterator at t (r = t), or end (r = <<>>)
 Size(n) == n = ExpSize
 Iterate(seq) == ListsOnce(seq, S)
 Bounds(k, t, seq) == ListsOnce(seq, Prefixed(k, t))    \* getBoundaries<k>: tuples sharing the first k components
